@@ -343,7 +343,7 @@ pub fn phases(cfg: &Cfg) -> Vec<Box<dyn Phase>> {
             trees: trees(),
         }),
         Box::new(RandomPairs {
-            n: cfg.n(3_000_000, 30_000_000),
+            n: cfg.n(3_000_000, 150_000_000),
             trees: trees(),
         }),
     ]
